@@ -498,7 +498,7 @@ def shard(ctx):
             for _ in range((600 if ctx.tier == "quick" else 20000) // ctx.nshards + 1):
                 cmd = {"op": "xmatrix_build", "origin": rng.choice(["origin.hs.example.com", "a.b:8448", "[::1]:80", "1.2.3.4"]),
                        "key": "ed25519:" + rng.choice(["key1", "a_b", "1", "ABC"]),
-                       "sig": rng.choice(["ABCDEA", "dGVzdA", "aGVsbG8gd29ybGQ+Lz8", "A" * 86, "+/+/"])}
+                       "sig": rng.choice(["ABCDEA", "dGVzdA", "aGVsbG8gd29ybGQ+Lz8", "A" * 86, "+/+/", "", "AA"])}
                 if rng.random() < 0.8:
                     cmd["destination"] = rng.choice(["destination.hs.example.com", "d:1", "[2001:db8::1]"])
                 cmds.append(cmd)
@@ -513,6 +513,29 @@ def shard(ctx):
                         back["destination"] != cmd.get("destination") or \
                         back["sig"].rstrip("=") != cmd["sig"].rstrip("="):
                     rep.violation("xmatrix_round_trip_fails", cmd["origin"], {"cmd": cmd, "reply": o}, cmd)
+            # Content-Disposition values built from parts: what is written must be read back as the same value
+            cmds = []
+            names = [None, "", "a.txt", "my file.txt", "a\"b", "back\\slash", "semi;colon", "é.png", "\u65e5\u672c.txt", " ", "a=b", "x\ty",
+                     "\x01", "%41", "''", "UTF-8''x", "\u2603 snow.txt", "a" * 300]
+            for ty in ("inline", "attachment", "form-data", "x-custom"):
+                for fn in names:
+                    c = {"op": "content_disposition_build", "type": ty}
+                    if fn is not None:
+                        c["filename"] = fn
+                    cmds.append(c)
+            for cmd, r in zip(cmds, w.call_many(cmds)):
+                rep.count("content_dispositions")
+                rep.judged()
+                if handle_crash(rep, r, cmd, context="content-disposition"):
+                    continue
+                o = r["ok"]
+                if "type_err" in o:
+                    continue
+                # control characters cannot be carried by the header: only their removal is tolerated
+                fn = cmd.get("filename")
+                printable = fn is None or all(ord(ch) >= 0x20 and ord(ch) != 0x7f for ch in fn)
+                if "back_err" in o or (printable and (not o["equal"] or o["back_filename"] != fn)):
+                    rep.violation("content_disposition_round_trip_fails", "%s:%r" % (cmd["type"], fn), {"cmd": cmd, "reply": o}, cmd)
         if ctx.shard == 0 and layer == "rel:api":
             rep.sample({"synthetic_endpoints": sorted(synth), "real_endpoints": len(real)})
 
